@@ -6,6 +6,7 @@ package main
 // on memory and its result; failure outcomes (errors) are explicit branches.
 
 import (
+	"os"
 	"fmt"
 	"go/types"
 	"math/big"
@@ -172,6 +173,18 @@ func init() {
 		}
 		res := ex.appendSlice(reach, cur, src)
 		ex.gsliceWrite("bytes.Buffer", reach, bp.Ref, res)
+		if traceHyp == "binwrite" {
+			k := ex.byteKind()
+			for i, e := range k.log {
+				fmt.Fprintf(os.Stderr, "  log[%d] typ=%d guard=%v ref=%v idx=%v val=%v n=%v src=%v\n", i, e.typ, e.guard, e.ref, e.idx, e.val, e.n, e.src)
+			}
+			for name := range ex.mem.kinds {
+				if strings.Contains(name, "byte") || strings.Contains(name, "uint8") {
+					fmt.Fprintf(os.Stderr, "  kind %q log=%d\n", name, len(ex.mem.kinds[name].log))
+				}
+			}
+			fmt.Fprintf(os.Stderr, "BINWRITE cur=%v/%v/%v src=%v len=%v res.arr=%v res[0]=%v src[0]=%v\n", cur.Arr, cur.Len, cur.Cap, src.Arr, src.Len, res.Arr, ex.readByte(res.Arr, res.Off), ex.readByte(src.Arr, src.Off))
+		}
 		return ex.nilErr(), reach
 	}
 	externs["(*bytes.Buffer).Bytes"] = func(ex *Exec, f *Frame, call *ssa.Call, args []Value, reach *Term) (Value, *Term) {
